@@ -228,8 +228,8 @@ def execute(scenario, chooser):
         agents_alive = []   # keeps the agents referenced (ids stay unique)
 
         def running_instances():
-            cur = wa._jobs.get_current()
-            lst = ([cur] if cur else []) + list(wa._jobs.get_background())
+            cur = jobs.get_current()
+            lst = ([cur] if cur else []) + list(jobs.get_background())
             agents_alive.extend(lst)
             return [inst.get(id(a)) for a in lst]
 
@@ -275,6 +275,8 @@ def execute(scenario, chooser):
                 self._rec('clear_queue')
                 return super().clear_queue()
 
+        real_jc = web_app.JobControl
+        web_app.JobControl = RecJobControl      # WebApp() builds its own
         try:
             wa = web_app.WebApp()
         except core.SimAbort:
@@ -282,7 +284,12 @@ def execute(scenario, chooser):
         except Exception as ex:
             st['init_error'] = '{}: {}'.format(type(ex).__name__, ex)
             return
-        wa._jobs = RecJobControl()
+        finally:
+            web_app.JobControl = real_jc
+        jobs = world.job_control_of(wa)
+        if not isinstance(jobs, RecJobControl):
+            st['init_error'] = 'WebApp did not build its JobControl itself'
+            return
         injection.bind_instance(wa).to(i_web.WebApp)
         st['wa'] = wa
         del flask_stub.rendered[:]
@@ -291,11 +298,11 @@ def execute(scenario, chooser):
                 sim.sleep(r['pause'])
             o = {'path': r['path'], 'j0': len(jlog), 'f0': len(fs.opened),
                  'r0': len(flask_stub.rendered), 'ev0': sim.next_event(),
-                 'queued_before': [a.name for a in wa._jobs.get_queued()],
+                 'queued_before': [a.name for a in jobs.get_queued()],
                  'running_before': [a.name for a in
-                                    ([wa._jobs.get_current()]
-                                     if wa._jobs.get_current() else []) +
-                                    list(wa._jobs.get_background())],
+                                    ([jobs.get_current()]
+                                     if jobs.get_current() else []) +
+                                    list(jobs.get_background())],
                  'inst_before': running_instances(),
                  'exc': None, 'status': 200}
             try:
@@ -311,21 +318,21 @@ def execute(scenario, chooser):
             o['opens'] = fs.opened[o['f0']:]
             o['rendered'] = [(t, _ctx_summary(c))
                              for t, c in flask_stub.rendered[o['r0']:]]
-            o['queued_after'] = [a.name for a in wa._jobs.get_queued()]
+            o['queued_after'] = [a.name for a in jobs.get_queued()]
             o['inst_after'] = running_instances()
             o['running_after'] = [a.name for a in
-                                  ([wa._jobs.get_current()]
-                                   if wa._jobs.get_current() else []) +
-                                  list(wa._jobs.get_background())]
+                                  ([jobs.get_current()]
+                                   if jobs.get_current() else []) +
+                                  list(jobs.get_background())]
             obs.append(o)
         # let everything finish: stop what is endless
         sim.set_budget(60000, 'final-drain')
         wa.stop_all()
         for _ in range(200):
-            if not wa._jobs.has_jobs():
+            if not jobs.has_jobs():
                 break
             sim.sleep(max(sc['tick'], 0.1))
-        st['drained'] = not wa._jobs.has_jobs()
+        st['drained'] = not jobs.has_jobs()
 
     with world.StdoutCapture():
         sim, out = world.run_sim(main, chooser, gran=sc['policy']['gran'],
